@@ -272,7 +272,7 @@ def run(ctx):
             continue
         for bb in rules.call_blocks(fn, SEND):
             sites.append((fn, bb))
-    ctx.floor("send:sites", len(sites), 10, "Outbox send sites outside Outbox")
+    ctx.floor("send:sites", len(sites), 6, "Outbox send sites outside Outbox")
     n_refs = 0
     for fn, bb in sites:
         t = fn["blocks"][bb]["t"]
@@ -347,7 +347,7 @@ def run(ctx):
         ctx.check(key, ok, "send of a refs/unknown-kind announcement (%s) is restricted to peers allowed to see the repository: %s" % (why, how),
                   rules.where(fn, bb), fn=fn)
         ctx.sample({"site": rules.where(fn, bb), "kind": kind, "why": why, "restricted": ok, "how": how})
-    ctx.floor("send:refs-or-unknown", n_refs, 3, "send sites of refs/unknown kind (announce_refs, relay, subscribe replay)")
+    ctx.floor("send:refs-or-unknown", n_refs, 2, "send sites of refs/unknown kind (announce_refs, relay, subscribe replay)")
 
     # announce_refs: the document consulted is the one of the announced repository at every caller
     ar = db.one(r"^radicle_node::service::Service::announce_refs$")
@@ -378,10 +378,19 @@ def run(ctx):
         ctx.violated("anchor:initialize", "Service::initialize not found")
     else:
         ins = []
+        # the inventory set is the one handed to gossip::inventory(..) / routing add_inventory(..) (role, not name)
+        inv = set()
         for bb, t, c in db.calls(init):
-            if re.search(r"BTreeSet::insert$|HashSet::insert$", c.get("n") or ""):
+            n = c.get("n") or ""
+            if re.search(r"gossip::inventory$", n) and len(t[2]) > 1:
+                r = flow.root_place(init, t[2][1])
+                if r is not None:
+                    inv.add(r[0])
+        ctx.floor("inventory:initialize:set", len(inv), 1, "set handed to gossip::inventory in initialize")
+        for bb, t, c in db.calls(init):
+            if re.search(r"BTreeSet::insert$|HashSet::insert$|::extend$|Vec::push$", c.get("n") or ""):
                 r = flow.root_place(init, t[2][0])
-                if r is not None and init["locals"][r[0]][1] == "inventory":
+                if r is not None and r[0] in inv:
                     ins.append(bb)
         ctx.floor("inventory:initialize:insert", len(ins), 1, "inventory.insert sites in initialize")
         ok, a, bad = rules.dom_check(db, init, ins, rules.is_bool(r"^radicle::identity::doc::Doc::is_public$", True))
